@@ -120,4 +120,25 @@ PLANS = {
                         "pipe arrivals/departures (dialers are retired after a pipe close so no redial timer fires mid-operation)",
                         "NNG_FLAG_NONBLOCK sends are confined to c09_nbsend (known finding bus_nonblock_eagain ends those runs at the first send)"],
     },
+    "C12": {
+        "level": "exploration",
+        "rule": NT_RULE + "; C12: at least one injected fault (connection loss, replier restart, dropped/delayed/"
+                          "mis-addressed reply, partition) fired while a tracked request was outstanding and every "
+                          "request of the run was then checked against the statement",
+        "budget_s": {"quick": 50, "thorough": 900},
+        "scenarios": [
+            S("c12_connloss", 900, 27000),
+            S("c12_resend", 900, 27000),
+            S("c12_noretry", 700, 21000),
+        ],
+        "assumptions": [
+            "liveness is checked as a bound after the last fault: reconnect back-off + connect completion + transfer "
+            "time from the run's own options + 0.5 s slack (+ 2 x (resend time + tick) where the statement lets a "
+            "request wait for the resend timer, + 127 s when a connect() was swallowed by a partition/black hole), "
+            "injected thread stalls subtracted",
+            "c12_connloss asserts the 'whenever the connection is lost' clause by using resend times of 15-60 s and "
+            "a bound far below them; c12_resend asserts the 'whenever RESENDTIME elapses' clause with silent loss",
+            "raw repliers speak SP over simulated TCP only (8-byte hello, u64 length framing)",
+        ],
+    },
 }
